@@ -126,6 +126,9 @@ class Hub(object):
         self._call(self.h_pre, node, et)
 
     def boundary(self):
+        if not self.in_event:
+            # exact mode: ciw forces its own node classes, the pre-event seam is unavailable
+            self.cur_event = (self.Q.current_time, None, None)
         self.in_event = False
         self.nevents += 1
         self.events.append(self.cur_event)
@@ -535,7 +538,7 @@ def build_network(cfg):
     any_bat = any("batch" in c for c in classes.values())
     any_ren = any("renege" in c for c in classes.values())
     any_baulk = any("baulk" in c for c in classes.values())
-    any_route = any(c.get("route") is not None for c in classes.values()) or nn > 1
+    any_route = True   # always install a monitored top-level router (default: all-zero transition matrix)
     for cn in cnames:
         c = classes[cn]
         arr[cn] = []
